@@ -9,14 +9,14 @@ def sig(ev):
 def run(ck):
     ck.tlc_mc("TemplateLifeMC", "TemplateLifeMC_thorough.cfg" if ck.thorough else "TemplateLifeMC.cfg")
     ck.tlc_mc("TemplateLifeMC", "TemplateLifeMC_live.cfg")
-    sched, info = ck.schedules_from_graph("TemplateLifeMC", "TemplateLifeMC_graph.cfg", maxlen=40,
-                                          maxwalks=None if ck.thorough else 4000)
+    sched, info = ck.schedules_from_graph("TemplateLifeMC", "TemplateLifeMC_graph2.cfg" if ck.thorough else "TemplateLifeMC_graph.cfg",
+                                          maxlen=50 if ck.thorough else 40, maxwalks=None if ck.thorough else 4000)
     b = ck.go_build("c10")
     trace, summ = ck.run_driver(b, ["-sched", sched])
     ck.validate(MODULE, trace, sig=sig)
     ck.assumptions += ["time is the harness clock injected through the verif hook (unit 1 h, TTL 2 units); the callback's clock read is the gate that separates Fire / CbRead / CbRun",
                        "a Now() call arriving while no driver-initiated decode is in progress is attributed to the most recently fired callback (the driver is single-threaded)"]
-    ck.finish(rule="engine A: edge-covering walks of TLC's state graph (2 keys, TTL 2, now<=3, 2 template objects, 2 callbacks in flight: every transition incl. fired-but-pending callbacks; quick = 4000 walks sampled by seed, thorough = all edges) replayed on a real collector with a harness clock; engine B: random schedules over 12 keys; "
+    ck.finish(rule="engine A: edge-covering walks of TLC's state graph (2 keys, TTL 2, 2 template objects, 2 callbacks in flight; quick: now<=3, 4000 walks sampled by seed out of 67 k edges; thorough: now<=4, every one of 272 k edges: every transition incl. fired-but-pending callbacks) replayed on a real collector with a harness clock; engine B: random schedules over 12 keys; "
                    "distinct = distinct schedules by hash; a schedule is non-trivial when it has at least one step (all)",
               technique="TLA+ TemplateLife spec (TLC exhaustive + liveness under fairness) + replay of TLC state-graph schedules through the real collector + TLC trace validation", exhaustive=ck.thorough)
 
